@@ -1,6 +1,7 @@
 package main
 
 import (
+	"os"
 	"fmt"
 	"go/ast"
 	"go/constant"
@@ -86,11 +87,39 @@ func runC09(c *Ctx) {
 	// variable or by being returned — only under the indent mode
 	nWriters, nBreaks := 0, 0
 	for _, nodesWriter := range allFuncDecls(p) {
-		if nodesWriter.Recv != nil || nodesWriter.Body == nil {
+		if nodesWriter.Body == nil {
 			continue
 		}
 		var indentParam types.Object
 		hasNodes := false
+		// a method of an unexported writer type: the mode may be a boolean field of the receiver
+		if nodesWriter.Recv != nil {
+			if len(nodesWriter.Recv.List) != 1 {
+				continue
+			}
+			rt := info.TypeOf(nodesWriter.Recv.List[0].Type)
+			if pt, ok := rt.(*types.Pointer); ok {
+				rt = pt.Elem()
+			}
+			nt, ok := rt.(*types.Named)
+			if !ok || nt.Obj().Exported() {
+				continue
+			}
+			st, ok := nt.Underlying().(*types.Struct)
+			if !ok {
+				continue
+			}
+			nbool := 0
+			for i := 0; i < st.NumFields(); i++ {
+				if b, ok := st.Field(i).Type().Underlying().(*types.Basic); ok && b.Kind() == types.Bool {
+					indentParam = st.Field(i)
+					nbool++
+				}
+			}
+			if nbool != 1 {
+				continue
+			}
+		}
 		for _, prm := range nodesWriter.Type.Params.List {
 			t := info.TypeOf(prm.Type)
 			if t == nil {
@@ -182,6 +211,9 @@ func runC09(c *Ctx) {
 							if id, ok := ast.Unparen(ue.X).(*ast.Ident); ok && info.ObjectOf(id) == indentParam {
 								guarded = true
 							}
+							if se, ok := ast.Unparen(ue.X).(*ast.SelectorExpr); ok && info.ObjectOf(se.Sel) == indentParam {
+								guarded = true
+							}
 						}
 					}
 				}
@@ -212,8 +244,44 @@ func runC09(c *Ctx) {
 			c.viol("C09.R2", fmt.Sprintf("anchor-lost:%s.Write", typ), "", typ+".Write not found")
 			continue
 		}
-		den := &denum{info: info, pkg: p.Types, inits: map[types.Object]ast.Expr{}, limit: 50000, loopsOnce: true}
+		// (helpers and methods of the same type that the writer is split into are followed into; the writers of child
+		// lists and of other nodes are not)
+		decls2 := map[types.Object]*ast.FuncDecl{}
+		noInline := map[types.Object]bool{}
+		for _, hfd := range allFuncDecls(p) {
+			if hfd == fd || hfd.Body == nil {
+				continue
+			}
+			ob := info.Defs[hfd.Name]
+			decls2[ob] = hfd
+			for _, prm := range hfd.Type.Params.List {
+				if t := info.TypeOf(prm.Type); t != nil && strings.HasSuffix(t.String(), "[]"+pkgParser+".Node") {
+					noInline[ob] = true
+				}
+			}
+			if hfd.Recv != nil && recvTypeName(hfd.Recv.List[0].Type) != typ {
+				noInline[ob] = true
+			}
+		}
+		den := &denum{info: info, pkg: p.Types, inits: map[types.Object]ast.Expr{}, limit: 50000, loopsOnce: true, decls: decls2, inlineVals: true, noInline: noInline}
 		den.finish(den.run(fd.Body.List, []dstate{{env: map[types.Object]ast.Expr{}}}))
+		if os.Getenv("TEMPLVET_DEBUG") != "" {
+			fmt.Fprintf(os.Stderr, "DEBUG C09.R2 %s inlined enumeration: undecided=%q paths=%d\n", typ, den.undecided, len(den.paths))
+			for i, pth := range den.paths {
+				var took []string
+				for _, pc := range pth.Conds {
+					took = append(took, fmt.Sprintf("%s=%v", types.ExprString(pc.Expr), pc.Val))
+				}
+				if i < 40 {
+					fmt.Fprintf(os.Stderr, "DEBUG   path %d: %s\n", i, strings.Join(took, ", "))
+				}
+			}
+		}
+		if den.undecided != "" {
+			// fall back to the writer's own body alone
+			den = &denum{info: info, pkg: p.Types, inits: map[types.Object]ast.Expr{}, limit: 50000, loopsOnce: true}
+			den.finish(den.run(fd.Body.List, []dstate{{env: map[types.Object]ast.Expr{}}}))
+		}
 		if den.undecided != "" {
 			c.undec("C09.R2", funcKey(p, fd)+"|flags", c.pos(fd.Pos()), typ+".Write contains "+den.undecided)
 			continue
@@ -586,6 +654,10 @@ func conjunctHas(info *types.Info, cond ast.Expr, v types.Object) bool {
 	cond = ast.Unparen(cond)
 	if id, ok := cond.(*ast.Ident); ok {
 		return info.ObjectOf(id) == v
+	}
+	// the mode as a field of the writer: nw.breakLines
+	if se, ok := cond.(*ast.SelectorExpr); ok {
+		return info.ObjectOf(se.Sel) == v
 	}
 	// the mode as a predicate handed in by the caller: mode(…)
 	if call, ok := cond.(*ast.CallExpr); ok {
